@@ -112,6 +112,13 @@ _TYPES = {"int": int, "float": float, "str": str, "bool": bool, "tuple": tuple, 
 def eval_expr(expr: ast.AST, env: Dict[str, object]):
     """Value of a whitelisted expression with variables bound by ``env``
     (keys are normalised source texts, so ``a.b`` or ``x[0]`` can be bound)."""
+    try:
+        return _eval_expr(expr, env)
+    except (TypeError, ValueError, ZeroDivisionError, OverflowError) as exc:
+        raise Undecided(f"{norm(expr)} is not defined on the sample point ({exc})")
+
+
+def _eval_expr(expr: ast.AST, env: Dict[str, object]):
     key = norm(expr)
     if key in env:
         return env[key]
@@ -128,15 +135,19 @@ def eval_expr(expr: ast.AST, env: Dict[str, object]):
         if isinstance(expr.op, ast.UAdd):
             return +v
     if isinstance(expr, ast.BoolOp):
-        vals = [eval_expr(v, env) for v in expr.values]
+        # short-circuit, as Python does
         if isinstance(expr.op, ast.And):
             r = True
-            for v in vals:
-                r = r and v
+            for v in expr.values:
+                r = eval_expr(v, env)
+                if not r:
+                    return r
             return r
         r = False
-        for v in vals:
-            r = r or v
+        for v in expr.values:
+            r = eval_expr(v, env)
+            if r:
+                return r
         return r
     if isinstance(expr, ast.Compare):
         left = eval_expr(expr.left, env)
@@ -183,3 +194,42 @@ def truth_table(expr: ast.AST, var: str, points, extra: Optional[dict] = None):
         env[var] = p
         out[p] = bool(eval_expr(expr, env))
     return out
+
+
+# --------------------------------------------------------------------------
+# straight-line decision functions
+# --------------------------------------------------------------------------
+class _Return(Exception):
+    def __init__(self, value):
+        self.value = value
+
+
+def eval_function(fn: ast.AST, env: Dict[str, object]):
+    """Interpret a small pure function body (if / return / simple assignment /
+    pass / docstring) on concrete sample values.  Anything else -> Undecided."""
+    env = dict(env)
+
+    def block(body):
+        for st in body:
+            if isinstance(st, ast.Expr) and isinstance(st.value, ast.Constant):
+                continue
+            if isinstance(st, ast.Pass):
+                continue
+            if isinstance(st, ast.Return):
+                raise _Return(None if st.value is None else eval_expr(st.value, env))
+            if isinstance(st, ast.If):
+                block(st.body if eval_expr(st.test, env) else st.orelse)
+                continue
+            if isinstance(st, ast.Assign) and len(st.targets) == 1 and isinstance(st.targets[0], ast.Name):
+                env[st.targets[0].id] = eval_expr(st.value, env)
+                continue
+            if isinstance(st, ast.AnnAssign) and isinstance(st.target, ast.Name) and st.value is not None:
+                env[st.target.id] = eval_expr(st.value, env)
+                continue
+            raise Undecided(f"statement not modelled: {norm(st)[:80]}")
+
+    try:
+        block(fn.body)
+    except _Return as r:
+        return r.value
+    return None
